@@ -141,9 +141,9 @@ func init() {
 		Simulated:   []string{"child-VM sync.Pool policy", "host functions (call, callrep, op, choose) and their failures"},
 		Runs: func(tier string) int {
 			if tier == "thorough" {
-				return 300000
+				return 40000000
 			}
-			return 4000
+			return 40000
 		},
 		WallCap: func(tier string) float64 {
 			if tier == "thorough" {
